@@ -20,7 +20,7 @@ SetOf(x) == {x[j] : j \in 1..Len(x)}
 Act ==
     LET a == Ev.a IN
     CASE a = "new_module" -> (NewModule(Ev.f) /\ last'.k = Ev.k)
-      [] a = "eval_load" -> (EvalLoad(Ev.k, Ev.f, Ev.i, Ev.how))
+      [] a = "eval_load" -> (EvalLoad(Ev.k, Ev.f, Ev.i, Ev.how, Ev.c))
       [] a = "import_public" -> (ImportPublic(Ev.k, Ev.f, Ev.i, Ev.how))
       [] a = "freeze" -> (Freeze(Ev.k))
       [] a = "get_owned" -> (GetOwned(Ev.f, Ev.i) /\ last'.h = Ev.h)
